@@ -544,6 +544,28 @@ impl SchedulerIncoming for Scheduler {
         {
             // LOCKS
             let mut jobs = self.jobs.lock().unwrap();
+            let servers = self.servers.lock().unwrap();
+
+            // No lock was held during do_assign_job. If the server was replaced (it sent a
+            // heartbeat with a new nonce) or pruned in the meantime, its jobs_assigned no longer
+            // holds this job: recording the job now would attribute it to a server that does
+            // not account for it. Job ids are never reused, so finding the id in jobs_assigned
+            // means it is still the same reservation.
+            let still_reserved = servers
+                .get(&server_id)
+                .is_some_and(|details| details.jobs_assigned.contains(&job_id));
+            if !still_reserved {
+                warn!(
+                    "Server {:?} was replaced or removed while job {} was being assigned to it",
+                    server_id, job_id
+                );
+                let msg = format!(
+                    "Server {} went away while job {} was being assigned to it",
+                    server_id.addr(),
+                    job_id
+                );
+                return Ok(AllocJobResult::Fail { msg });
+            }
 
             info!(
                 "Job {} successfully assigned and saved with state {:?}",
@@ -712,7 +734,14 @@ impl SchedulerIncoming for Scheduler {
                 (JobState::Started, JobState::Complete) => {
                     let (job_id, _) = entry.remove_entry();
                     if let Some(entry) = server_details {
-                        assert!(entry.jobs_assigned.remove(&job_id))
+                        // Must not panic: both locks are held, a panic would poison them and
+                        // every later request would fail
+                        if !entry.jobs_assigned.remove(&job_id) {
+                            error!(
+                                "Finished job {} was not assigned to server {:?}",
+                                job_id, server_id
+                            );
+                        }
                     } else {
                         bail!("Job was marked as finished, but server is not known to scheduler")
                     }
